@@ -48,7 +48,8 @@ theorem C08_distinct (ops : List Op) : ((run ops).1.srvs.map (·.name)).Nodup :=
 
 /-- shape facts regenerated on this run -/
 theorem C08_shape : Gen.shape_tempdirDefault = true ∧ Gen.shape_serverOwnsBeforeBind = true ∧ Gen.shape_pathChecked = true ∧
-    Gen.shape_acceptLingerThenRecv = true ∧ Gen.shape_acceptConsumesServer = true ∧ Gen.listenBacklog = 10 := by decide
+    Gen.shape_acceptLingerThenRecv = true ∧ Gen.shape_acceptConsumesServer = true ∧ Gen.listenBacklog = 10 ∧
+    Gen.shape_rendezvousCloexec = true := by decide
 
 /-! non-vacuity: the client connects, sends 7 and 8 and exits before accept; accept returns 7, the receiver then yields 8 and
 reports disconnection; nothing is left -/
